@@ -123,9 +123,15 @@ pub enum DumpMode {
 
 /// Canonical dump of a real database through public queries only.
 pub fn dump_db<S: StorageData>(db: &DbImpl<S>, extra_index_values: &[Val], mode: DumpMode) -> Result<Dump, Fail> {
+    dump_with(&|c: &CQuery| run_read(db, c).map_err(|e| format!("{e:?}")), extra_index_values, mode)
+}
+
+/// The canonical dump through any read-only query executor (a local database or the server's
+/// exec endpoint).
+pub fn dump_with(run: &dyn Fn(&CQuery) -> Result<QueryResult, String>, extra_index_values: &[Val], mode: DumpMode) -> Result<Dump, Fail> {
     let mut d = Dump::default();
     let q = |c: &CQuery| -> Result<Option<QueryResult>, Fail> {
-        match run_read(db, c) {
+        match run(c) {
             Ok(r) => Ok(Some(r)),
             Err(e) => {
                 if mode == DumpMode::Lenient {
@@ -133,7 +139,7 @@ pub fn dump_db<S: StorageData>(db: &DbImpl<S>, extra_index_values: &[Val], mode:
                 } else {
                     Err(Fail::new(
                         format!("dump: {} failed", c.kind()),
-                        format!("dump query {c:?} failed: {}", err_text(&e)),
+                        format!("dump query {c:?} failed: {e}"),
                     ))
                 }
             }
@@ -180,7 +186,7 @@ pub fn dump_db<S: StorageData>(db: &DbImpl<S>, extra_index_values: &[Val], mode:
             }
             e.counts = (counts[0], counts[1], counts[2]);
             // per-node alias: Err iff none
-            if let Ok(r) = run_read(db, &CQuery::SelectAliases(QIds::Ids(vec![QId::Id(*id)]))) {
+            if let Ok(r) = run(&CQuery::SelectAliases(QIds::Ids(vec![QId::Id(*id)]))) {
                 if let Some(el) = actual_elems(&r).into_iter().next() {
                     if let Some((_, Val::Str(a))) = el.values.first() {
                         e.alias = Some(a.clone());
@@ -224,6 +230,103 @@ pub fn dump_db<S: StorageData>(db: &DbImpl<S>, extra_index_values: &[Val], mode:
                 d.indexes.insert(k, (n, per_value));
             }
         }
+    }
+    Ok(d)
+}
+
+/// The canonical dump in three round trips through a batch executor (the server's exec
+/// endpoint). Index probes are restricted to values that survive JSON; a node's alias comes
+/// from the alias listing.
+pub fn dump_batched(run: &dyn Fn(&[CQuery]) -> Result<Vec<QueryResult>, String>) -> Result<Dump, Fail> {
+    let fail = |stage: &str, e: String| Fail::new(format!("dump: {stage} failed"), e);
+    let mut d = Dump::default();
+    let r1 = run(&[CQuery::SelectNodeCount, CQuery::Search(CSearch::elements()), CQuery::SelectAllAliases, CQuery::SelectIndexes]).map_err(|e| fail("listing", e))?;
+    if r1.len() != 4 {
+        return Err(fail("listing", format!("{} results", r1.len())));
+    }
+    d.node_count = r1[0].result;
+    let ids: Vec<i64> = r1[1].elements.iter().map(|e| e.id.0).collect();
+    for el in actual_elems(&r1[2]) {
+        if let Some((_, Val::Str(a))) = el.values.first() {
+            d.aliases.insert(a.clone(), el.id);
+        }
+    }
+    let edge_only = |s: CSearch| s.with(cond(CData::Distance(CountCmp::Le(1)))).with(cond(CData::Edge));
+    let mut qs = vec![];
+    for id in &ids {
+        qs.push(CQuery::SelectValues { ids: QIds::Ids(vec![QId::Id(*id)]), keys: vec![] });
+        if *id > 0 {
+            qs.push(CQuery::Search(edge_only(CSearch::from(QId::Id(*id)))));
+            qs.push(CQuery::Search(edge_only(CSearch::to(QId::Id(*id)))));
+            for (f, t) in [(true, true), (true, false), (false, true)] {
+                qs.push(CQuery::SelectEdgeCount { ids: QIds::Ids(vec![QId::Id(*id)]), from: f, to: t });
+            }
+        }
+    }
+    let r2 = if qs.is_empty() { vec![] } else { run(&qs).map_err(|e| fail("elements", e))? };
+    if r2.len() != qs.len() {
+        return Err(fail("elements", format!("{} results for {} queries", r2.len(), qs.len())));
+    }
+    let mut k = 0;
+    for id in &ids {
+        let mut e = ElemDump::default();
+        if let Some(el) = actual_elems(&r2[k]).into_iter().next() {
+            e.from = el.from;
+            e.to = el.to;
+            e.values = el.values;
+        }
+        k += 1;
+        if *id > 0 {
+            e.out = r2[k].elements.iter().map(|x| x.id.0).collect();
+            e.inc = r2[k + 1].elements.iter().map(|x| x.id.0).collect();
+            e.counts = (r2[k + 2].result, r2[k + 3].result, r2[k + 4].result);
+            k += 5;
+            e.alias = d.aliases.iter().find(|(_, v)| **v == *id).map(|(a, _)| a.clone());
+        }
+        d.elements.insert(*id, e);
+    }
+    let json_safe = |v: &Val| match v {
+        Val::F64(b) => f64::from_bits(*b).is_finite(),
+        Val::VF64(v) => v.iter().all(|b| f64::from_bits(*b).is_finite()),
+        _ => true,
+    };
+    let mut values_to_try: BTreeSet<Val> = value_pool().into_iter().filter(json_safe).collect();
+    for e in d.elements.values() {
+        for (_, v) in &e.values {
+            if json_safe(v) {
+                values_to_try.insert(v.clone());
+            }
+        }
+    }
+    let mut probes = vec![];
+    let mut keys = vec![];
+    for el in actual_elems(&r1[3]) {
+        for (key, n) in el.values {
+            let n = match n {
+                Val::U64(n) => n,
+                _ => u64::MAX,
+            };
+            for v in &values_to_try {
+                probes.push(CQuery::Search(CSearch::index(key.clone(), v.clone())));
+            }
+            keys.push((key, n));
+        }
+    }
+    let r3 = if probes.is_empty() { vec![] } else { run(&probes).map_err(|e| fail("index probes", e))? };
+    let mut k = 0;
+    for (key, n) in keys {
+        let mut per_value = BTreeMap::new();
+        for v in &values_to_try {
+            if let Some(r) = r3.get(k) {
+                let mut ids: Vec<i64> = r.elements.iter().map(|e| e.id.0).collect();
+                ids.sort();
+                if !ids.is_empty() {
+                    per_value.insert(v.clone(), ids);
+                }
+            }
+            k += 1;
+        }
+        d.indexes.insert(key, (n, per_value));
     }
     Ok(d)
 }
